@@ -85,6 +85,14 @@ def schedules(fam):
                       [opn("c1"), sub("c1", "a"), Q, ev("a", "change", k="x", val=R("d"), **st), dict(reply("get", "d"), **st),
                        ev("d", "custom", **st), ev("d", "change", k="w", val=P("5"), **st), dict(reply("get", "e"), **st), Q, ev("d", "custom"), Q]))
     if fam == "stream":
+        # clients of different protocol versions receive the same cached model / collection version (soft references and
+        # data values are encoded differently for them), in both orders
+        mixres = {"m": Mo(s={"t": "s", "v": "x"}, d={"t": "d", "v": '{"k":1}'}, p=P("1")), "col": {"k": "c", "c": [{"t": "s", "v": "x"}, {"t": "d", "v": '{"k":1}'}, P("2")]},
+                  "x": Mo(z=P("1"))}
+        for name, first, second in (("mixedver-lat", "latest", "1.2.0"), ("mixedver-leg", "1.2.0", "latest"), ("mixedver-111", "1.1.1", "latest")):
+            out.append(SC(fam, name, mixres, [opn("c1", first), opn("c2", second), sub("c1", "m"), sub("c1", "col"), Q, sub("c2", "m"), sub("c2", "col"), Q,
+                                              ev("m", "change", k="p", val=P("2")), Q, opn("c3", first), sub("c3", "m"), Q, opn("c4", second), sub("c4", "m"), Q]))
+    if fam == "stream":
         # a change event that changes nothing must leave no trace: the events that follow are delivered as before, to the
         # client that held the resource and to one that subscribes afterwards
         out.append(SC(fam, "noopchange", {"a": Mo(x=P("1"), y=P("2"))},
